@@ -33,6 +33,9 @@ package dbwrap
 
 import (
 	"errors"
+	"fmt"
+	"os"
+	"runtime/debug"
 	"sync"
 
 	mwdb "massnet.org/mass-wallet/masswallet/db"
@@ -126,6 +129,9 @@ func (c *Ctl) NCommits() int { c.mu.Lock(); defer c.mu.Unlock(); return c.Commit
 // Crashed reports whether the crash point has been reached.
 func (c *Ctl) Crashed() bool { c.mu.Lock(); defer c.mu.Unlock(); return c.crashed }
 
+// VERIF_FAULT_STACK=1 prints the call stack of every injected fault (debugging aid).
+var debugStacks = os.Getenv("VERIF_FAULT_STACK") != ""
+
 func freeze() { select {} }
 
 // enter is called first by every wrapper method: after the crash point nothing moves any more.
@@ -160,6 +166,9 @@ func (c *Ctl) call(k Kind) bool {
 			c.FirstKind = k
 		}
 		c.Injected++
+		if debugStacks {
+			fmt.Fprintf(os.Stderr, "dbwrap: injecting fault at call %d (%v)\n%s\n", c.calls, k, debug.Stack())
+		}
 	}
 	c.mu.Unlock()
 	return fail
